@@ -7,6 +7,7 @@ from .state import SV, Raise, Unsupported
 
 BV8 = z3.BitVecSort(8)
 ByteSeq = z3.SeqSort(BV8)
+FP64 = z3.Float64()
 
 TRUSTED = {}   # name -> one-line statement of the assumed contract (reported in evidence)
 
@@ -253,6 +254,7 @@ def s_encode(ex, st, recv, args, kwargs, cx):
     s = ex.o.s(recv)
     st = st.clone()
     st.assume(g(f(s)) == s)
+    st.assume(w.fun("is_utf8", ByteSeq, "bool")(f(s)))
     st.assume((z3.Length(f(s)) == 0) == (z3.Length(s) == 0))
     yield st, ex.o.bytes_(f(s))
 
@@ -278,10 +280,21 @@ def y_decode(ex, st, recv, args, kwargs, cx):
         yield from ex.raise_new(b, "UnicodeDecodeError")
 
 
+LOWER_LITERALS = ("t", "true", "1", "on", "yes", "y", "f", "false", "0", "off", "no", "n")
+
+
+def lower_literals(w, st):
+    """str.lower() leaves these lower-case literals as they are (the spellings BoolField and the XML format compare with)"""
+    f = w.fun("str_lower", "str", "str")
+    for c in LOWER_LITERALS:
+        st.assume(f(z3.StringVal(c)) == z3.StringVal(c))
+
+
 def s_lower(ex, st, recv, args, kwargs, cx):
     f = ex.w.fun("str_lower", "str", "str")
     s = ex.o.s(recv)
     st = st.clone()
+    lower_literals(ex.w, st)
     st.assume(f(f(s)) == f(s))
     st.assume((z3.Length(f(s)) == 0) == (z3.Length(s) == 0))
     yield st, ex.o.str_(f(s))
@@ -511,6 +524,242 @@ EXTERNALS = {
     "os.path.expanduser": x_expanduser, "os.urandom": x_urandom, "os.environ.get": x_environ_get,
     "base64.b64encode": x_b64encode, "base64.b64decode": x_b64decode, "warnings.warn": x_warn,
 }
+
+
+# ====================================================================== document codecs (json, yaml, bson, pickle)
+# A *document value* (sort Int, abstract) is what a plain-data tree denotes: doc_of(v).  A codec library is a pair
+# text_<lib>(doc[, option]) / parse_<lib>(text) of uninterpreted functions with the assumed law parse(text(d)) == d.
+# Map structure is visible through doc_has / doc_get, linked to the heap object at the moment of the call
+# (a key schema over the arrays read at that moment).  doc_of is a function of the value alone: contracts that
+# mention it must leave every pre-existing object unchanged (lint `doc-contracts-are-pure`).
+trusted("json/yaml/bson/pickle codecs", "each library is a pair text(d, options) / parse(t) over abstract document values with parse(text(d, o)) == d "
+        "for every tree in the format's representable domain (the law itself is assumed, sampled by the C04 driver); a map document "
+        "decodes to a new dict whose keys and values are those of the document; what a non-map document decodes to is not modelled")
+
+
+def doc_funs(w):
+    I = z3.IntSort()
+    return {"of": w.fun("doc_of", "V", I), "has": w.fun("doc_has", I, "str", "bool"), "get": w.fun("doc_get", I, "str", I),
+            "is_map": w.fun("doc_is_map", I, "bool")}
+
+
+def doc_link(ex, st, r):
+    """key schema: the document of dict object r (contents as of now) has exactly r's string keys, pointwise"""
+    from .eval_call import Schema
+    w, V = ex.w, ex.w.V
+    D = doc_funs(w)
+    dom, mp, keys, n = st.rd("$dom", r), st.rd("$map", r), st.rd("$keys", r), st.rd("$len", r)
+    d = D["of"](V.ref(r))
+    st.assume(D["is_map"](d))
+
+    def inst(k, dom=dom, mp=mp, d=d):
+        return z3.Implies(V.is_str(k), z3.And(D["has"](d, V.s(k)) == z3.Select(dom, k),
+                                              z3.Implies(z3.Select(dom, k), D["get"](d, V.s(k)) == D["of"](z3.Select(mp, k)))))
+    st.schemas = st.schemas + [Schema("key", inst, "doc-link")]
+    for i in range(3):          # small literals: the keys at the first positions
+        st.assume(z3.Implies(z3.And(n > i), inst(z3.Select(keys, i))))
+    return d
+
+
+def codec_funs(w, lib):
+    I = z3.IntSort()
+    if lib in ("json",):
+        return w.fun("text_json", I, "V", "str"), w.fun("parse_json", "str", I)
+    if lib == "yaml":
+        return w.fun("text_yaml", I, "str"), w.fun("parse_yaml", "str", I)
+    return w.fun("text_" + lib, I, ByteSeq), w.fun("parse_" + lib, ByteSeq, I)
+
+
+def doc_value_of(ex, st, v):
+    """document value of an argument handed to an encoder"""
+    o = ex.o
+    t = o.tyof(st, v)
+    if t and t.startswith("ref:") and o.refcls(st, v, ("dict",)) == "dict":
+        return doc_link(ex, st, o.r(v))
+    return doc_funs(ex.w)["of"](v.e)
+
+
+def decoded_value(ex, st, d):
+    """the object a decoder returns for document d: a new dict when d is a map (the only case modelled)"""
+    D = doc_funs(ex.w)
+    if not ex.o.entails(st, D["is_map"](d)):
+        raise Unsupported("decoding a document that is not known to be a map")
+    r = st.new_ref("dict")
+    st.assume(D["of"](ex.w.V.ref(r)) == d)
+    st.assume(st.rd("$len", r) >= 0)
+    doc_link(ex, st, r)
+    st.track_keys = True
+    return ex.o.ref(r, "dict")
+
+
+def x_json_dumps(ex, st, args, kwargs, cx):
+    st = st.clone()
+    text, parse = codec_funs(ex.w, "json")
+    d = doc_value_of(ex, st, args[0])
+    indent = kwargs.get("indent", ex.o.none())
+    if set(kwargs) - {"indent"}:
+        raise Unsupported("json.dumps options %s" % sorted(kwargs))
+    t = text(d, indent.e)
+    st.assume(parse(t) == d)
+    yield st, ex.o.str_(t)
+
+
+def x_json_loads(ex, st, args, kwargs, cx):
+    st = st.clone()
+    text, parse = codec_funs(ex.w, "json")
+    yield st, decoded_value(ex, st, parse(ex.o.s(args[0])))
+
+
+def x_yaml_dump(ex, st, args, kwargs, cx):
+    st = st.clone()
+    text, parse = codec_funs(ex.w, "yaml")
+    if set(kwargs) - {"Dumper"}:
+        raise Unsupported("yaml.dump options %s" % sorted(kwargs))
+    d = doc_value_of(ex, st, args[0])
+    t = text(d)
+    st.assume(parse(t) == d)
+    yield st, ex.o.str_(t)
+
+
+def x_yaml_load(ex, st, args, kwargs, cx):
+    st = st.clone()
+    text, parse = codec_funs(ex.w, "yaml")
+    yield st, decoded_value(ex, st, parse(ex.o.s(args[0])))
+
+
+def x_bin_dumps(lib):
+    def f(ex, st, args, kwargs, cx):
+        st = st.clone()
+        text, parse = codec_funs(ex.w, lib)
+        if kwargs:
+            raise Unsupported("%s.dumps options" % lib)
+        d = doc_value_of(ex, st, args[0])
+        t = text(d)
+        st.assume(parse(t) == d)
+        yield st, ex.o.bytes_(t)
+    return f
+
+
+def x_bin_loads(lib):
+    def f(ex, st, args, kwargs, cx):
+        st = st.clone()
+        text, parse = codec_funs(ex.w, lib)
+        yield st, decoded_value(ex, st, parse(ex.o.y(args[0])))
+    return f
+
+
+EXTERNALS.update({"json.dumps": x_json_dumps, "json.loads": x_json_loads, "yaml.dump": x_yaml_dump, "yaml.load": x_yaml_load,
+                  "bson.dumps": x_bin_dumps("bson"), "bson.loads": x_bin_loads("bson"),
+                  "pickle.dumps": x_bin_dumps("pickle"), "pickle.loads": x_bin_loads("pickle")})
+
+
+# ====================================================================== xml.etree.ElementTree (C04)
+# An Element is a heap object with the declared attributes tag / attrib (a dict of its own) / text and its children in
+# the sequence arrays of its own reference (append and iteration are the list ones).  Parsing and printing are external.
+trusted("xml.etree.ElementTree / minidom", "Element(tag) has the tag, an empty attribute map of its own, no text and no children; append adds a "
+        "child at the end; iteration yields the children in order, each an Element; fromstring(text) raises ParseError exactly when the text is "
+        "not well formed (predicate xml_ok) and otherwise returns an element whose tag is xml_root_tag(text) (content not modelled); "
+        "printing (tostring, minidom pretty printing) is a function xml_bytes of the element that produces well-formed UTF-8 text with the element's tag as root tag")
+
+
+def _new_element(ex, st, tag):
+    V = ex.w.V
+    r = st.new_ref("Element")
+    st.wr("Element.tag", r, tag)
+    return r
+
+
+def x_et_element(ex, st, args, kwargs, cx):
+    if len(args) != 1 or kwargs:
+        raise Unsupported("ET.Element form")
+    st = st.clone()
+    r = _new_element(ex, st, args[0].e)
+    d = ex.o.dict_new(st)
+    st.wr("Element.attrib", r, d.e)
+    st.wr("Element.text", r, ex.w.V.none)
+    st.wr("$len", r, z3.IntVal(0))
+    yield st, ex.o.ref(r, "Element")
+
+
+def x_et_fromstring(ex, st, args, kwargs, cx):
+    w, o, V = ex.w, ex.o, ex.w.V
+    s = o.s(args[0])
+    ok = w.fun("xml_ok", "str", "bool")(s)
+    a = st.clone()
+    a.assume(ok)
+    if o.feasible(a):
+        r = _new_element(ex, a, V.str(w.fun("xml_root_tag", "str", "str")(s)))
+        d = a.new_ref("dict")
+        a.wr("Element.attrib", r, V.ref(d))
+        a.assume(a.rd("$len", d) >= 0)
+        t = a.rd("Element.text", r)
+        a.assume(z3.Or(V.is_none(t), V.is_str(t)))
+        a.assume(a.rd("$len", r) >= 0)
+        yield a, o.ref(r, "Element")
+    b = st.clone()
+    b.assume(z3.Not(ok))
+    if o.feasible(b):
+        yield from ex.raise_new(b, "ParseError")
+
+
+EXTERNALS["ET.Element"] = x_et_element
+EXTERNALS["ET.fromstring"] = x_et_fromstring
+CONTAINER_METHODS[("Element", "append")] = l_append
+
+
+def c_int(ex, st, args, kwargs, cx):
+    """int(x): identity on int, 0/1 on bool, parse of a str (ValueError exactly when int_ok fails; int_parse inverts int_text)"""
+    w, o = ex.w, ex.o
+    if len(args) != 1 or kwargs:
+        raise Unsupported("int() form")
+    v = args[0]
+    t = o.tyof(st, v)
+    if t == "int":
+        yield st, v
+    elif t == "bool":
+        yield st, o.int_(z3.If(o.b(v), 1, 0))
+    elif t == "str":
+        s = o.s(v)
+        ok = w.fun("int_ok", "str", "bool")(s)
+        a = st.clone()
+        a.assume(ok)
+        if o.feasible(a):
+            yield a, o.int_(w.fun("int_parse", "str", "int")(s))
+        b = st.clone()
+        b.assume(z3.Not(ok))
+        if o.feasible(b):
+            yield from ex.raise_new(b, "ValueError")
+    else:
+        raise Unsupported("int(%s)" % t)
+
+
+def c_float(ex, st, args, kwargs, cx):
+    w, o = ex.w, ex.o
+    if len(args) != 1 or kwargs:
+        raise Unsupported("float() form")
+    v = args[0]
+    t = o.tyof(st, v)
+    if t == "float":
+        yield st, v
+    elif t == "str":
+        s = o.s(v)
+        ok = w.fun("float_ok", "str", "bool")(s)
+        a = st.clone()
+        a.assume(ok)
+        if o.feasible(a):
+            yield a, o.float_(w.fun("float_parse", "str", FP64)(s))
+        b = st.clone()
+        b.assume(z3.Not(ok))
+        if o.feasible(b):
+            yield from ex.raise_new(b, "ValueError")
+    else:
+        raise Unsupported("float(%s)" % t)
+
+
+trusted("int()/float()/str() of numbers", "int(s) raises ValueError exactly when int_ok(s) fails, else int_parse(s); int_parse(int_text(i)) == i and "
+        "int_ok(int_text(i)); likewise float_parse(float_text(x)) == x (repr round trip, NaN up to being NaN is NOT claimed) and float_ok(float_text(x))")
+BUILTIN_CTORS["int"] = c_int
+BUILTIN_CTORS["float"] = c_float
 
 
 # ====================================================================== cryptography (AES-CBC, PKCS7)
